@@ -53,7 +53,7 @@ def catalog(kind, size):
     if kind == 'cnf':
         return [('cfg', s) for i, s in cfg.cnf3() if i % (61 if size == 'm' else 241) == 17]
     if kind == 're':
-        return [('re', s) for i, s in rx.trees_up_to(6) if i % (13 if size == 'm' else 53) == 3]
+        return [('re', s) for i, s in rx.trees_up_to(6) if i % (13 if size == 'm' else 53) == 3] + [('re', s) for i, s in rx.trees_up_to(4, ('0', '1', 's0', 's1'))][::(1 if size == 'm' else 5)]
     if kind == 'tm':
         return [('tm', s) for i, s in tm.tms(1, 2)][::(1 if size == 'm' else 4)] + [('tm', s) for i, s in tm.tms(2, 2) if i % 1499 == 9]
     raise ValueError(kind)
@@ -227,6 +227,8 @@ POOL_ITEMS = [
     ('cfg', ('cfg', ('A', 'S'), ('a', 'b'), (('S', ('a', 'S', 'b')), ('S', ('A',)), ('A', ()), ('A', ('b', 'A'))), 'S')),
     ('cfg', ('cfg', ('A', 'B', 'S'), ('a', 'b'), (('S', ('A', 'B')), ('S', ()), ('A', ('a',)), ('B', ('A', 'B')), ('B', ('b',))), 'S')),
     ('re', ('.', ('*', ('+', ('s', 'a'), ('1',))), ('s', 'b'))),
+    ('re', ('1',)),
+    ('re', ('+', ('s', '1'), ('.', ('s', '0'), ('s', '1')))),
     ('tm', ('tm', 1, 2, ((0, 0, 'R'), (1, 1, 'L')), 0)),
 ]
 
@@ -491,7 +493,7 @@ def plan(tier, seed):
     for hs in (range(3) if q else range(16)):
         tasks.append(('plain', P + 't_seed', {'hashseed': hs}))
     return {'tasks': tasks,
-            'bounds': {'operations': len(O.OPS), 'argument_catalogs': 'small' if q else 'medium', 'histories': 'all call sequences of depth <= 2 over all operations, depth <= 3 over {} core operations, on a pool of 9 objects; operands of a step limited to <= 6 states (PDA 4), <= 12 rules / 6 variables, <= 12 expression nodes'.format(len(CORE_OPS)),
+            'bounds': {'operations': len(O.OPS), 'argument_catalogs': 'small' if q else 'medium', 'histories': 'all call sequences of depth <= 2 over all operations, depth <= 3 over {} core operations, on a pool of 11 objects; operands of a step limited to <= 6 states (PDA 4), <= 12 rules / 6 variables, <= 12 expression nodes'.format(len(CORE_OPS)),
                        'hash_seeds': 3 if q else 16, 'logging': 'every instance with logging off and on'},
             'exhaustive': True,
             'rule': '(a) every operation x every instance of its argument catalog: canonical argument snapshot before = after, result valid, same result with logging on; (b) breadth-first search over call sequences (results join the pool): pool unchanged, result = result of the same call on equal arguments in a pristine state; (c) a fixed battery executed in fresh processes under each PYTHONHASHSEED, digests must agree. states = instances + canonical history states',
